@@ -501,8 +501,80 @@ func decodeBytes(b []byte, unp string) map[string]any {
 		outcome = "nil"
 	} else {
 		outcome = "value"
+		// a value is a value all the way down: no missing (nil) element anywhere inside it
+		var holes bool
+		if r := guard(func() { holes = hasNil(canonOf(v)) }); r != "" || holes {
+			outcome = "a value with missing (nil) parts"
+		}
 	}
 	return map[string]any{"ev": "Decode", "ops": ops, "outcome": outcome, "unpickler": unp, "hex": hex.EncodeToString(b[:min(len(b), 64)])}
+}
+
+func hasNil(c any) bool {
+	switch x := c.(type) {
+	case map[string]any:
+		if x["t"] == "nil" {
+			return true
+		}
+		for _, v := range x {
+			if hasNil(v) {
+				return true
+			}
+		}
+	case []any:
+		for _, v := range x {
+			if hasNil(v) {
+				return true
+			}
+		}
+	}
+	return false
+}
+
+// instrs is the whole opcode table of pickle protocols 0-5, each opcode with small well-formed
+// arguments, plus a few byte values that are no opcode at all.
+func instrs() [][]byte {
+	var out [][]byte
+	add := func(op byte, args ...string) {
+		if len(args) == 0 {
+			out = append(out, []byte{op})
+		}
+		for _, a := range args {
+			out = append(out, append([]byte{op}, a...))
+		}
+	}
+	for _, c := range []byte("(012NQRabdel]ost)u}") {
+		add(c)
+	}
+	for _, c := range []byte{0x81, 0x85, 0x86, 0x87, 0x88, 0x89, 0x8f, 0x90, 0x91, 0x92, 0x93, 0x94, 0x97, 0x98, 0x00, 0x7f, 0xff} {
+		add(c)
+	}
+	for _, c := range []byte("FILPSVgp") { // newline-terminated argument
+		add(c, "0\n", "1\n")
+	}
+	add('c', "m\nn\n")
+	add('i', "m\nn\n")
+	for _, c := range []byte{'K', 'h', 'q', 0x80, 0x82} { // one-byte argument
+		add(c, "\x00", "\x01")
+	}
+	for _, c := range []byte{'M', 0x83} {
+		add(c, "\x00\x00", "\x01\x00")
+	}
+	for _, c := range []byte{'J', 'j', 'r', 0x84} {
+		add(c, "\x00\x00\x00\x00", "\x01\x00\x00\x00")
+	}
+	add('G', "\x00\x00\x00\x00\x00\x00\x00\x00")
+	add(0x95, "\x00\x00\x00\x00\x00\x00\x00\x00", "\x02\x00\x00\x00\x00\x00\x00\x00")
+	for _, c := range []byte{'U', 'C', 0x8c, 0x8a} { // one-byte length
+		add(c, "\x00", "\x01a")
+	}
+	for _, c := range []byte{'T', 'X', 'B', 0x8b} { // four-byte length
+		add(c, "\x00\x00\x00\x00", "\x01\x00\x00\x00a")
+	}
+	for _, c := range []byte{0x8d, 0x8e, 0x96} { // eight-byte length
+		add(c, "\x00\x00\x00\x00\x00\x00\x00\x00", "\x01\x00\x00\x00\x00\x00\x00\x00a")
+	}
+	return out
 }
 
 // ---- harness-generated values ---------------------------------------------------------------------
@@ -884,4 +956,43 @@ func TestVerifPickle(t *testing.T) {
 		flush("rand", false, 400)
 	}
 	flush("rand", true, 0)
+	// (5) the whole opcode table: every pair of instructions (thorough: also the triples over the
+	// stack and memo instructions) after a prefix that leaves something on the stack and in the memo
+	ins := instrs()
+	prefixes := [][]byte{{opNONE}, {opEMPTY_LIST, opMEMOIZE}}
+	if tier == "thorough" {
+		prefixes = append(prefixes, nil, []byte{opMARK, opNONE}, []byte{opNONE, opMEMOIZE})
+	}
+	emit := func(b []byte) {
+		if hung {
+			return
+		}
+		if ev := decodeBytes(b, "generic"); ev != nil {
+			batch = append(batch, ev)
+		}
+		flush("table", false, 400)
+	}
+	for _, p := range prefixes {
+		for _, a := range ins {
+			for _, b2 := range ins {
+				emit(append(append(append(append([]byte{}, p...), a...), b2...), opSTOP))
+			}
+		}
+	}
+	if tier == "thorough" {
+		var small [][]byte
+		for _, a := range ins {
+			if strings.ContainsRune("(012Nhjqrgp]a)t}s", rune(a[0])) || a[0] == opMEMOIZE || a[0] == 0x85 {
+				small = append(small, a)
+			}
+		}
+		for _, a := range small {
+			for _, b2 := range small {
+				for _, c := range small {
+					emit(append(append(append(append([]byte{opNONE, opMEMOIZE}, a...), b2...), c...), opSTOP))
+				}
+			}
+		}
+	}
+	flush("table", true, 0)
 }
